@@ -459,6 +459,16 @@ lofp_to_line			(unsigned int *		field,
 	}
 }
 
+static int
+sliced_buffer_overflow		(struct frame *		f)
+{
+	error (&f->log,
+	       "Out of sliced VBI buffer space (%d lines).",
+	       (int)(f->sliced_end - f->sliced_begin));
+
+	return VBI_ERR_SLICED_BUFFER_OVERFLOW;
+}
+
 /**
  * @internal
  * @param f VBI data unit decoding context.
@@ -505,14 +515,6 @@ line_address			(struct frame *		f,
 	unsigned int field_line;
 	unsigned int frame_line;
 
-	if (unlikely (f->sp >= f->sliced_end)) {
-		error (&f->log,
-		       "Out of sliced VBI buffer space (%d lines).",
-		       (int)(f->sliced_end - f->sliced_begin));
-
-		return VBI_ERR_SLICED_BUFFER_OVERFLOW;
-	}
-
 	lofp_to_line (&field, &field_line, &frame_line,
 		      lofp, system);
 
@@ -553,6 +555,13 @@ line_address			(struct frame *		f,
 			if (NULL == rpp || (int8_t) lofp < 0)
 				return -1; /* new_frame */
 		}
+
+		/* Only now: when the buffer is full the first data
+		   unit of the next frame must still be recognized
+		   as such (return -1 above), or a frame of exactly
+		   sliced_end - sliced_begin lines is never delivered. */
+		if (unlikely (f->sp >= f->sliced_end))
+			return sliced_buffer_overflow (f);
 
 		if (NULL != rpp) {
 			unsigned int raw_start;
@@ -617,6 +626,9 @@ line_address			(struct frame *		f,
 				return VBI_ERR_DU_LINE_NUMBER;
 			}
 		}
+
+		if (unlikely (f->sp >= f->sliced_end))
+			return sliced_buffer_overflow (f);
 
 		f->last_field = field;
 		f->last_field_line = field_line;
